@@ -379,3 +379,32 @@ def dot_orientation(prog, body):
         if s[0] == "call" and s[1].endswith(("Iterator::sum", "Iterator::fold")):
             return "elementwise", render(s)[:100]
     return None, render(ret)[:100]
+
+
+def dot_vector_gate(body):
+    """truth table over (self.rows == 1, self.cols == 1, other.rows == 1, other.cols == 1): a non-panicking return must be
+    reachable exactly when each operand has a unit dimension. returns (n_tests, bad[list of str])"""
+    import itertools
+    cx = BodyCtx.of(body)
+    atoms = {("rows", 1): 0, ("cols", 1): 1, ("rows", 2): 2, ("cols", 2): 3}
+    tests = []
+    for c in cx.cmps:
+        for (L, R, rel) in ((c.lhs, c.rhs, c.rel), (c.rhs, c.lhs, guards.FLIP[c.rel])):
+            d = dim_of(L)
+            if d and d[0] in ("rows", "cols") and d[1][0] == "arg" and (d[0], d[1][1]) in atoms and R == ("int", 1) and rel in ("==", "!="):
+                tests.append((c, atoms[(d[0], d[1][1])], rel))
+    bad = []
+    for assign in itertools.product((False, True), repeat=4):
+        cut = set()
+        for c, k, rel in tests:
+            truth = assign[k] if rel == "==" else (not assign[k])
+            cut.add((c.bb, c.false_bb) if truth else (c.bb, c.true_bb))
+        reach = body.reachable_from([0], cut_edges=frozenset(cut))
+        can_return = any(r in reach for r in body.returns)
+        must_reject = not ((assign[0] or assign[1]) and (assign[2] or assign[3]))
+        shape = lambda r1, c1: f"{'1' if r1 else 'm'}x{'1' if c1 else 'n'}"
+        if must_reject and can_return:
+            bad.append(f"accepts {shape(assign[0], assign[1])} . {shape(assign[2], assign[3])}")
+        if not must_reject and not can_return:
+            bad.append(f"refuses {shape(assign[0], assign[1])} . {shape(assign[2], assign[3])}")
+    return len(tests), bad
